@@ -557,10 +557,10 @@ def gen_cases(rng, tier):
     gens2 = {k: genuine(k, 2) for k in GENUINE_KINDS}
     seen = set()
 
-    def emit(kind, xml, tag, cfg=None):
-        if xml is None or xml in seen:
+    def emit(kind, xml, tag, cfg=None, key=None):
+        if xml is None or (xml, key) in seen:
             return None
-        seen.add(xml)
+        seen.add((xml, key))
         return {"op": "xsw", "kind": kind, "xml": xml, "tag": tag, "cfg": cfg or CFG_FOR[kind]}
 
     for kind in GENUINE_KINDS:
@@ -600,6 +600,23 @@ def gen_cases(rng, tier):
             c = emit(kind, edit_variant(gens[kind], where, rng), "edit:" + where)
             if c:
                 yield c
+        # the same message as bytes in other encodings: unchanged (control) and with non-ASCII characters inserted
+        # inside the signed region
+        for enc in ("ISO-8859-1", "UTF-16", "cp1252"):
+            c = emit(kind, gens[kind] + " ", "encoding:%s/unchanged" % enc, key=enc)
+            if c:
+                c["enc"] = enc
+                yield c
+            for ch in ("\u00e9", "\u00fc\u00df", "\u00a0"):
+                root = ET.fromstring(gens[kind])
+                nid = find1(root, Q(SAML, "NameID"))
+                nid.text = (nid.text or "") + ch
+                av = find1(root, Q(SAML, "AttributeValue"))
+                av.text = (av.text or "") + ch
+                c = emit(kind, ET.tostring(root, encoding="unicode"), "encoding:%s/edited-%s" % (enc, "+".join("%04x" % ord(x) for x in ch)), key=enc)
+                if c:
+                    c["enc"] = enc
+                    yield c
         for how in ("swap_assertion", "append_assertion", "swap_signature", "response_sig_swap"):
             for k2 in GENUINE_KINDS:
                 c = emit(kind, splice_variant(gens[kind], gens2[k2], how), "splice:%s/%s" % (how, k2))
@@ -636,7 +653,7 @@ def _prepare():
             learn_genuine(genuine(k, n), _table)
 
 
-def run_sp_xml(xml, cfg):
+def run_sp_xml(xml, cfg, enc=None):
     sp = F.sp_for(cfg)
     from saml2.cache import Cache
     from saml2.population import Population
@@ -644,7 +661,13 @@ def run_sp_xml(xml, cfg):
     sp.users = Population(Cache())
     del _calls[:]
     n0 = len(X.LOG)
-    msg = base64.b64encode(xml.encode("utf-8")).decode("ascii")
+    if enc:
+        # the document as BYTES in another encoding, with a matching declaration (what is verified and what is reported
+        # must be the same bytes, whatever the encoding)
+        raw = ('<?xml version="1.0" encoding="%s"?>' % enc).encode("ascii") + xml.encode(enc)
+    else:
+        raw = xml.encode("utf-8")
+    msg = base64.b64encode(raw).decode("ascii")
     out = None
     with S.clock(S.NOW0):
         try:
@@ -720,7 +743,7 @@ def run_impl(case):
                 if o["r"] != "identity":
                     raise RuntimeError("genuine message not accepted: %r" % (o,))
                 _orig_reported[(k, n)] = o
-    out, calls, verifs = run_sp_xml(case["xml"], case["cfg"])
+    out, calls, verifs = run_sp_xml(case["xml"], case["cfg"], case.get("enc"))
     acalls = []
     for c in calls:
         try:
